@@ -92,8 +92,12 @@ def params(model, S, variant):
     cfg = S.cfg
     p8 = cfg["prm8"]
 
+    jump = variant % 3 == 2 and cfg["prmkind"] in ("cohort", "both")
+
     def p1(c, li):
-        return p8[c][li] / 8.0
+        # (every third variant: the parameter JUMPS by a factor 4 at the middle cohort - later cohorts live much longer;
+        # each cohort must still be governed by its OWN parameter)
+        return p8[c][li] / 8.0 * (4.0 if (jump and c >= len(p8) // 2) else 1.0)
 
     if model == "WeibullLifetime":
         # shape varies like the emitted table (1.2 .. 3), scale = table value
